@@ -18,6 +18,16 @@ CLAIMED = {
    text="Every (scale, epoch count, duration) triple of the lattices is run through + - += -=, the Unit forms and exact-integer float seconds, and through the identities (e+d)-e=d, (e+d)-d=e, e+(f-e)=f, judged on to_parts(); Epoch - Epoch is checked for all 81 scale pairs both relationally (left scale after re-expressing the right operand) and against the exact model for the uniform scales and UTC; a stateright BFS chains +-d from each scale's zero, a leap second and -1 century.",
    note="Traces that hit a duration bound are don't-cares (the statement excludes them). Cross-scale differences with an ET/TDB operand are judged relationally only.",
    ref="DESIGN.md §4 C04"),
+ "C08": dict(
+   technique="bounded explicit-state model checking: exhaustive enumeration of the calendar lattice (every day of 1600-2400 / of 0001-9999, far years to +-30000) x times of day x 9 scales and of the full 12 M-tuple rejection product through the real constructors, judged by Hinnant's days_from_civil",
+   text="Every enumerated (date, time of day, scale) is built with maybe_from_gregorian (and, on every 16th, all convenience constructors) and the elapsed count compared to the nanosecond with (days_from_civil(date) - days(reference date)) x 86400 s + time of day - reference time of day; is_gregorian_valid is cross-checked. The accepted/rejected partition is checked on the full product of boundary values of all seven fields (36 years x 16 months x 35 days x 6 hours x 4 minutes x 5 seconds x 5 nanosecond values) and on second = 60 for the last day of every month 1958-2030 against the IERS list.",
+   note="hour == 24, nanosecond == 10^9 and second == 60 on 1971-12-31 are counted don't-cares (statement silent). Known finding D26: 30/31 February accepted in leap years (pinned by tests/epoch.rs test_range), narrow signature.",
+   ref="DESIGN.md §4 C08"),
+ "C09": dict(
+   technique="bounded explicit-state model checking: exhaustive enumeration of the calendar lattice x times of day x 9 scales and of the epoch lattice through the real decomposition / Display / accessors and back through the real constructor, judged by civil_from_days and a reference renderer",
+   text="For every enumerated instant the count that denotes it is decomposed by the real code: Display, to_gregorian_str, to_gregorian_utc/tai, the own-scale alternate formatter, year(), month_name(), day_of_year(), duration_in_year(), year_days_of_year(); every output is compared with the reference fields/rendering and the fields are fed back to maybe_from_gregorian, which must return the identical epoch. The five alternate formatters are compared with model conversions (UTC/TAI/TT exact, ET/TDB to the second away from second boundaries).",
+   note="Trusted: civil_from_days (bijection self-check over +-30 000 years at start-up), the reference renderer (Rust {:04}/{:02}/{:09} formatting).",
+   ref="DESIGN.md §4 C09"),
  "C12": dict(
    technique="bounded explicit-state model checking: exhaustive enumeration of all ordered pairs of ~1000 epochs (TAI instant lattice expressed in all nine scales) through the real comparison operators, and of pair x target-scale triples for conversion invariance, judged against the TAI instants",
    text="A lattice of TAI instants (each scale's zero +- {0,1 ns,1 s,1 day,half/one century}, leap seconds on both sides incl. instants inside the inserted second) is expressed in every scale; all ordered pairs go through == != < <= > >= cmp partial_cmp min max Range::contains and the swapped forms; a sub-lattice squared x 7 target scales checks that converting either or both operands preserves the answer; mixed-scale vectors are sorted.",
